@@ -10,7 +10,7 @@ from __future__ import annotations
 
 import z3
 
-from .sym import documented, Assumed, EngineLimit, Sym, _lift, _num2, engine, fresh
+from .sym import ext_mul, documented, Assumed, EngineLimit, Sym, _lift, _num2, engine, fresh
 
 _IDX = [z3.Int("idx!%d" % k) for k in range(8)]
 SumF = z3.Function("Sum", z3.IntSort(), z3.ArraySort(z3.IntSort(), z3.RealSort()), z3.RealSort())
@@ -340,10 +340,10 @@ class Tensor:
         return self._ew(o, lambda a, b: _ar(a, b, lambda x, y: x - y), True)
 
     def __mul__(self, o):
-        return self._ew(o, lambda a, b: _ar(a, b, lambda x, y: x * y))
+        return self._ew(o, ext_mul)
 
     def __rmul__(self, o):
-        return self._ew(o, lambda a, b: _ar(a, b, lambda x, y: x * y), True)
+        return self._ew(o, ext_mul, True)
 
     def __truediv__(self, o):
         return self._ew(o, lambda a, b: _toreal(a) / _toreal(b))
